@@ -24,18 +24,36 @@ LAWS = ['GetAfterSet', 'Frame', 'FrameMissingStaysMissing', 'SetCurrentIsIdentit
 AB = dict(KeyA='a', KeyB='b')
 # dict keys that are the plain strings 'SELF' / 'SKIP' (not the reserved Key.SELF / Key.SKIP objects)
 RESERVED = dict(KeyA='SELF', KeyB='SKIP')
+# a dict key that is a tuple, ('a', 'a'), next to the key 'a': one path step, not the two steps a -> a
+TUPLED = dict(KeyA='(a,a)', KeyB='a')
+
+
+def pk(n):
+  """Spec key name -> Python dict key."""
+  if n.isdigit():
+    return int(n)
+  if n.startswith('('):
+    return tuple(n[1:-1].split(','))
+  return n
+
+
+def unpk(k):
+  """Python dict key -> spec key name."""
+  if type(k) is tuple:      # pylint: disable=unidiomatic-typecheck
+    return '(' + ','.join(str(x) for x in k) + ')'
+  return str(int(k)) if isinstance(k, int) else str(k)
 
 
 def _bounds(tier):
   if tier == 'thorough':
     return dict(mc=[dict(TreeDepth=1, MaxSets=1, PathLen=2, **AB), dict(TreeDepth=2, MaxSets=0, PathLen=2, **AB)],
                 mc_nolaws=[dict(TreeDepth=2, MaxSets=0, PathLen=3, **AB)],
-                gen=[dict(TreeDepth=1, MaxSets=1, PathLen=2, **AB), dict(TreeDepth=1, MaxSets=1, PathLen=2, **RESERVED)],
-                sim=[dict(TreeDepth=2, MaxSets=3, PathLen=3, **AB), dict(TreeDepth=2, MaxSets=3, PathLen=3, **RESERVED)],
+                gen=[dict(TreeDepth=1, MaxSets=1, PathLen=2, **AB), dict(TreeDepth=1, MaxSets=1, PathLen=2, **RESERVED), dict(TreeDepth=1, MaxSets=1, PathLen=2, **TUPLED)],
+                sim=[dict(TreeDepth=2, MaxSets=3, PathLen=3, **AB), dict(TreeDepth=2, MaxSets=3, PathLen=3, **RESERVED), dict(TreeDepth=2, MaxSets=3, PathLen=3, **TUPLED)],
                 sim_num=6000)
   return dict(mc=[dict(TreeDepth=1, MaxSets=1, PathLen=2, **AB)], mc_nolaws=[],
-              gen=[dict(TreeDepth=1, MaxSets=1, PathLen=2, **AB), dict(TreeDepth=1, MaxSets=1, PathLen=2, **RESERVED)],
-              sim=[dict(TreeDepth=2, MaxSets=3, PathLen=3, **AB), dict(TreeDepth=2, MaxSets=3, PathLen=3, **RESERVED)],
+              gen=[dict(TreeDepth=1, MaxSets=1, PathLen=2, **AB), dict(TreeDepth=1, MaxSets=1, PathLen=2, **RESERVED), dict(TreeDepth=1, MaxSets=1, PathLen=2, **TUPLED)],
+              sim=[dict(TreeDepth=2, MaxSets=3, PathLen=3, **AB), dict(TreeDepth=2, MaxSets=3, PathLen=3, **RESERVED), dict(TreeDepth=2, MaxSets=3, PathLen=3, **TUPLED)],
               sim_num=800)
 
 
@@ -57,7 +75,7 @@ def to_py(t, arrays=False):
   if k == 'leaf':
     return t['v']
   if k == 'dict':
-    return {(int(n) if n.isdigit() else n): to_py(c, arrays) for n, c in zip(t['keys'], t['kids'])}
+    return {pk(n): to_py(c, arrays) for n, c in zip(t['keys'], t['kids'])}
   kids = [to_py(c, arrays) for c in t['kids']]
   if k == 'list':
     if arrays and kids and all(isinstance(x, int) for x in kids):
@@ -76,7 +94,7 @@ def canon(x):
   if isinstance(x, Err):
     return 'ERR'
   if isinstance(x, dict):
-    return ('dict', tuple((str(int(k)) if isinstance(k, int) else str(k), canon(v)) for k, v in x.items()))
+    return ('dict', tuple((unpk(k), canon(v)) for k, v in x.items()))
   if isinstance(x, np.ndarray):
     return ('list', tuple(canon(v) for v in x.tolist()))
   if isinstance(x, list):
@@ -93,7 +111,7 @@ def to_key(p):
   elems = []
   for e in p:
     if e['t'] == 'key':
-      elems.append(e['s'])
+      elems.append(pk(e['s']) if e['s'].startswith('(') else e['s'])
     elif e['t'] == 'idx':
       elems.append(tree.Index(e['i']))
     elif e['t'] == 'self':
@@ -123,7 +141,7 @@ def _enters_array(data, p):
     if isinstance(cur, np.ndarray):
       return True
     try:
-      cur = cur[e['s'] if e['t'] == 'key' else e['i']]
+      cur = cur[(pk(e['s']) if e['s'].startswith('(') else e['s']) if e['t'] == 'key' else e['i']]
     except Exception:  # pylint: disable=broad-exception-caught
       return False
   return False
@@ -174,6 +192,8 @@ def _check_view(chk, data, want_leaves, want_applied, ctx, tag):
     chk.violation(f'{tag}:items:exception:{type(e).__name__}', f'{e!r} on {data!r}', ctx)
     return False
   def pel(k):
+    if type(k) is tuple:      # pylint: disable=unidiomatic-typecheck
+      return unpk(k)
     if isinstance(k, int):
       return ('#', int(k))
     if isinstance(k, str) and k.isdigit():
